@@ -68,6 +68,33 @@ def run(ctx):
             mem_len = (f, f.show(f.strip(n["args"][1])))
         else:
             r1.violation("%s:attr.value" % f.name, "entry value is not a private copy: %s" % (f.show(e) if e else "?"), loc=f.loc(at))
+    # NULL is how the getters say "no such attribute": the duplicating call that produces a stored value must have no
+    # path that returns NULL (an empty binary value is a value)
+    from .. import seq as S
+    for f, e, at in writes["value"]:
+        n = f.sn(e) if e is not None else None
+        if not (n and n["k"] == "call"):
+            continue
+        defs, _ = P.callees(f, f.strip(e))
+        for d in defs:
+            r1.instance("%s never returns NULL" % d.name)
+            cls = set()
+
+            class Ret(S.SeqRule):
+                def inline(s2, fn, nid, callee):
+                    return False
+
+                def on_exit(s2, fn, st, ret_nid, ret_cls, top):
+                    if top:
+                        cls.add(ret_cls)
+            S.run(Ret(P), d)
+            if not cls:
+                raise Broken("C19.R1: no exit of %s explored" % d.name)
+            if cls & {S.ZERO, S.NONPOS}:
+                r1.violation("%s:returns-NULL" % d.name, "%s, which produces the stored copy of an attribute value, has a path that returns NULL: the entry exists but "
+                             "xcm_attr_map_get() answers NULL - the answer for an absent attribute - and clone/add_all abort on it" % d.name, loc=d.file)
+            else:
+                r1.ok("%s has no path returning NULL (allocation failure aborts)" % d.name, "return classes over all paths")
     for f, e, at in writes["value_len"]:
         t = f.show(f.strip(e)) if e is not None else "?"
         if mem_len and mem_len[0] is f and mem_len[1] == t:
